@@ -4,6 +4,9 @@
 //!   rbpf_harness run                         -> reads case lines on stdin, prints outcome lines
 mod rng;
 mod codec;
+mod progen;
+mod verify;
+mod exec;
 
 use std::io::{BufRead, Write};
 
@@ -19,6 +22,9 @@ fn run_line(line: &str) -> String {
     if toks.is_empty() { return "bad-op".into(); }
     match toks[0] {
         "dec" | "enc" | "idx" | "vec" | "bld" => codec::run(&toks),
+        "verify" => verify::run(&toks),
+        "dis" => { let p = rng::unhex(toks[1]).unwrap(); catch(move || rbpf::disassembler::to_insn_vec(&p).iter().enumerate().map(|(i, x)| format!("{}: {}", i, x.desc)).collect::<Vec<_>>().join("\n")) }
+        "exec" => exec::run(&toks),
         _ => "bad-op".into(),
     }
 }
@@ -26,7 +32,7 @@ fn run_line(line: &str) -> String {
 fn main() {
     let args: Vec<String> = std::env::args().collect();
     // keep panics quiet: every case runs under catch_unwind and reports "panic"
-    std::panic::set_hook(Box::new(|_| {}));
+    if std::env::var("SHOW_PANIC").is_err() { std::panic::set_hook(Box::new(|_| {})); }
     match args.get(1).map(|s| s.as_str()) {
         Some("gen") => {
             let suite = &args[2];
@@ -37,6 +43,12 @@ fn main() {
             let thorough = tier == "thorough";
             match suite.as_str() {
                 "codec" => codec::gen(&mut w, thorough, seed),
+                "verify" => verify::gen(&mut w, thorough, seed),
+                "exec-matrix" => exec::gen_matrix(&mut w, thorough, seed),
+                "exec-memops" => exec::gen_memops(&mut w, thorough, seed),
+                "exec-random" => exec::gen_random(&mut w, thorough, seed),
+                "exec-calls" => exec::gen_calls(&mut w, thorough, seed),
+                "exec-long" => exec::gen_long(&mut w, thorough, seed),
                 _ => { eprintln!("unknown suite {suite}"); std::process::exit(2); }
             }
             w.flush().unwrap();
